@@ -37,8 +37,7 @@ CFG = {'streams': [{'name': 'C16',
                  'HashMap iteration order is not observable: Variables::iter() and attributes are compared as name-sorted lists',
                  "Rust's shared borrow `&Globals` already forbids writes to the caller's sets; the model states it as: defaults are added to the "
                  'head (nested) frame only'],
- 'partial': ['global_eval (not yet proved): in every stanza and block, in both modes, a declared global evaluates to globals_get of the chain '
-             'returned by run_globals, and accepted files never add/set such a name - needs the interpreter and checker models (written separately); '
-             'here only its ingredients are modelled (unscoped_lookup, unscoped_add_guard, unscoped_set_guard, static_global_rule) and the statement '
-             'is TESTED by the correspondence stream (reads at depth 0-3 in if/for/scan, hide/set/duplicate at load time, run-time DuplicateVariable '
-             'for local definitions of undeclared supplied names)']}
+ 'partial': ['global_eval is proved against the interpreter models (global_evaluates_strict/_lazy: in every state, hence in every stanza and '
+             'block, a name bound in the variable set of the execution evaluates to that value; global_cannot_be_redeclared_or_hidden, '
+             'global_cannot_be_assigned: every defining/assigning path fails); that ACCEPTED files never try is the rule of the checker (C06) and is tested '
+             'here by the correspondence stream (hide/set/duplicate at load time, run-time DuplicateVariable for undeclared supplied names)']}
